@@ -435,5 +435,6 @@ func ShortDocs() []corpus.Doc {
 		mk("text/html", "\xef\xbb\xbf<p> a"), mk("text/css", "\xef\xbb\xbfa{ }"), mk("application/javascript", "\xef\xbb\xbfa =1"), mk(MTStream, "\xef\xbb\xbfbom"),
 		mk(MTWrap, ""), mk(MTWrap, "wrapped"),
 		mk("text/html", ""), mk("text/css", ""), mk("application/javascript", ""), mk("application/json", ""), mk("image/svg+xml", ""), mk("text/xml", ""),
+		mk(MTFailEarly, "rejected at its first byte while the producer still has all of this to write, chunk after chunk"),
 	}
 }
